@@ -16,6 +16,7 @@ RULE = ('exhaustive: n=1..6 and all 2^n-1 non-empty ascending subsets x state ki
         'complement of the subset splits into >=2 groups or the state has a zero-probability outcome. Distinct = (n, subset, state kind).'
         ' States also as strided / read-only arrays, real float64 and integer basis states, index also as (negative-stride) integer array.'
         " The same input again after set_args on the circuit's gates; the returned bit list is edited before the repeated call.")
+RULE += ' Measurements are also added through extend_circuit (a measuring sub-circuit joined to a larger one): the handle held by the caller must carry the recorded outcome and probabilities.'
 ASSUMPTIONS = ['no frequency test: the property claims support and Born probabilities, not a sampling distribution',
                'input states are normalised (np.random.Generator.choice requires probabilities summing to one)',
                'float32/complex64 states are outside the domain for the same reason: a state normalised to single precision has probabilities summing to one '
